@@ -29,7 +29,7 @@ theorem single_unit (k : Nat) (v : VarSpec) (h : single v = true) :
   unfold single at h
   simp only [Bool.and_eq_true, beq_iff_eq, decide_eq_true_eq] at h
   obtain ⟨hn, hi⟩ := h
-  obtain ⟨names, inits, late⟩ := v
+  obtain ⟨names, inits, late, oplate⟩ := v
   simp only at hn hi
   match names, hn with
   | [n], _ =>
